@@ -14,9 +14,18 @@
  * leaf of each container (L0,L1,L2,LL).
  *     indeg(o)  = number of positions holding a heap-tagged value whose pointer is o
  *     excess(o) = ref_count(o) - indeg(o)            (ref_count of a freed object counts as 0)
- * ALIASING: after build_state() the harness lets S1, S2, LOC hold one of the OTHER big values and every element
- * position hold any materialised string instead of its own leaf (nondeterministic selectors), then ASSUMES the
- * census invariant  ref_count(o) >= indeg(o)  for every tracked object (induction hypothesis over steps).
+ * ALIASING (after build_state()): (1) S1, S2, LOC may hold the heap value of a slot ABOVE them instead of their own
+ * (nondeterministic selectors; heap values replace heap values only, so scalar operands and build_state's index ties
+ * stay); (2) in the C14.step.<OP>.elem obligations (shapes pinned, -DVERIF_RC_EC/-DVERIF_RC_ES) the element position of
+ * a container holds the STRING another slot holds instead of its own leaf.  Not covered: two element positions with one
+ * object, a container that contains itself (cycles leak by design), a non-string heap value as an element (the contract
+ * stub of vm_release releases string children only).  Then the harness ASSUMES the census invariant
+ * ref_count(o) >= indeg(o) for every tracked object (induction hypothesis over steps).
+ * STACK DEPTH is pinned by the registry (-DVERIF_STACK_SIZE=7 of capacity 8: window slots 4..6, four slots below for the
+ * addressed local): with a symbolic depth/capacity the realloc branch of stack_push makes every later read of a slot
+ * a read through a symbolic-size copy (measured: out of memory at 10 GB).  Hence NOT covered here: stack growth inside
+ * the step (realloc copies the slots bitwise; its memory safety is C13.step.*), and steps with fewer than three slots
+ * (operand underflow, which the handlers treat as void operands).
  * Obligation, for an arbitrary tracked object o referenced from the footprint:
  *     SAFETY   excess_after(o) >= excess_before(o)      - a reference is never dropped without its count; with
  *              ref_count 0 for a freed object this includes  freed => indeg_after == 0 && excess_before == 0
@@ -203,6 +212,10 @@ void h_c14(void)
     __CPROVER_assert(t.type == TRAP_ERROR || !typed || excess1 == excess0, "C14.step.noleak excess' == excess on the non-error paths");
 #else
     VERIF_COVER(t.type != TRAP_ERROR && typed && alive && excess1 > excess0);      /* the leak is real */
+#endif
+#ifdef VERIF_RC_UNTYPED_LEAK
+    /* a heap value in an index / scalar operand position is popped and not released: the step goes on, the excess grows */
+    VERIF_COVER(t.type != TRAP_ERROR && !typed && alive && excess1 > excess0);
 #endif
     /* reachability guards; which of them apply to an opcode is told by the registry (VERIF_RC_COVERS bit mask) */
 #ifndef VERIF_RC_COVERS
